@@ -66,6 +66,10 @@ pub struct Agg {
     /// simulated execution): (lowest index, message). Nothing such a batch reports can be believed.
     pub harness_panics: u64,
     pub first_harness_panic: Option<(u64, String)>,
+    /// the batch was cut short because so many runs had failed already (every abandoned execution -
+    /// livelock, deadlock, panic - leaks its coroutine stacks, a batch in which every run fails would
+    /// otherwise eat the machine's memory)
+    pub stopped_early: bool,
 }
 
 impl Agg {
@@ -141,6 +145,7 @@ impl Agg {
         self.inconclusive += o.inconclusive;
         self.log_fold = self.log_fold.wrapping_add(o.log_fold);
         self.harness_panics += o.harness_panics;
+        self.stopped_early |= o.stopped_early;
         match (&self.first_harness_panic, o.first_harness_panic) {
             (Some((a, _)), Some((b, m))) if b < *a => self.first_harness_panic = Some((b, m)),
             (None, Some(x)) => self.first_harness_panic = Some(x),
@@ -249,6 +254,9 @@ where
 {
     let next = AtomicU64::new(0);
     let done = AtomicU64::new(0);
+    let failing = AtomicU64::new(0);
+    let abandoned = AtomicU64::new(0);
+    let fail_cap: u64 = std::env::var("VSIM_FAIL_CAP").ok().and_then(|s| s.parse().ok()).unwrap_or(600);
     let inflight = Inflight::from_env();
     let total = Mutex::new(Agg::default());
     let nthreads = threads().max(1);
@@ -288,6 +296,16 @@ where
             let d = done.fetch_add(1, Ordering::Relaxed) + 1;
             if d % 256 == 0 {
                 inflight.progress(d);
+            }
+            // enough evidence: no new runs are started after `fail_cap` runs that violate the property
+            // under check, or after 2000 abandoned executions whatever property they are attributed to
+            let mine = r.violations.iter().any(|v| v.prop == prop);
+            let abandoned_run = r.violations.iter().any(|v| matches!(v.clause.as_str(), "livelock" | "deadlock" | "panic"));
+            if (mine && failing.fetch_add(1, Ordering::Relaxed) + 1 >= fail_cap)
+                || (abandoned_run && abandoned.fetch_add(1, Ordering::Relaxed) + 1 >= 2000)
+            {
+                next.store(n, Ordering::Relaxed);
+                local.stopped_early = true;
             }
             local.absorb(prop, i, r, keep_samples);
             if crate::sched::take_retire() {
